@@ -169,6 +169,7 @@ fn main() {
         "typed" => vharness::typed::run(seed, n, thorough, &corpus, &dir),
         "comp" => vharness::comp::run(seed, n, thorough, &corpus, &dir),
         "fdec" => vharness::fdec::run(seed, n, thorough, &corpus, &dir),
+        "ovs" => vharness::ovs::run(seed, n, thorough, &corpus, &dir),
         other => { eprintln!("unknown sub-harness {other}"); std::process::exit(2); }
     }
 }
